@@ -25,6 +25,7 @@ func init() {
 			"(R9) in the subscription feed a deleted record is announced as del before any other classification: the new/upd replies are reachable only for records that are not deleted; " +
 			"(R10) a database interface hands out a nil controller only together with getController's own error, and nothing on the controller-lookup path (getController and the database functions it statically reaches) uses ErrNotFound - Put/PutNew continue on ErrNotFound and use the controller; " +
 			"(R11) lock pairing over the storage backends and the iterator (= C02-R9): a record or storage lock left behind by a query executor wedges every later request on that key; " +
+			"(R12) every possibly successful Controller.Put notifies the subscribers (= C14-R10): a delete on a database without shadow delete still produces the del message; " +
 			"NOT decided: absence of other panics for arbitrary messages, wedging, content preservation of written records.",
 		Rules: []ruleFn{c13R1, c13R2, c13R3, func(c *Ctx, r *Report) { subscriptionFeedRule(c, r, "C13-R4") }, c13R5,
 			lockRuleFor("C13-R6", 15, []string{}, []string{"api.(*DatabaseAPI).Handle", "api.MarshalRecord"}, map[string]string{}),
@@ -33,7 +34,8 @@ func init() {
 				return short(fn.Pkg.Pkg.Path()) == "api" && inFile(c, fn, "api/database.go")
 			}, map[string]string{"api.(*DatabaseAPI).processSub / database.Subscription.Cancel": "cancel at API shutdown is best effort; the feed is abandoned either way", "api.(*DatabaseWebsocketAPI).handler$1 / api.DatabaseWebsocketAPI.shutdown": "shutdown only returns the error it was given or a stop sentinel for the worker", "api.(*DatabaseWebsocketAPI).writer$1 / api.DatabaseWebsocketAPI.shutdown": "shutdown only returns the error it was given or a stop sentinel for the worker"}),
 			c13R9, c13R10,
-			lockRuleFor("C13-R11", 9, []string{"database/storage/hashmap", "database/storage/bbolt", "database/storage/badger", "database/storage/fstree", "database/storage/sinkhole", "database/storage", "database/iterator"}, []string{}, map[string]string{})},
+			lockRuleFor("C13-R11", 9, []string{"database/storage/hashmap", "database/storage/bbolt", "database/storage/badger", "database/storage/fstree", "database/storage/sinkhole", "database/storage", "database/iterator"}, []string{}, map[string]string{}),
+			borrowRule(c14R10, "C14-R10", "C13-R12", 2, nil)},
 	})
 }
 
